@@ -2,7 +2,7 @@
 #pragma once
 namespace vs
 {
-constexpr int N_TYPED_SITES = 55;
+constexpr int N_TYPED_SITES = 57;
 
 inline std::string typed_str(Rng& r, size_t maxlen, int flavour)
 {
@@ -37,6 +37,12 @@ enum TypedEnum : int
 };
 
 inline int format_as(TypedEnum e) { return static_cast<int>(e); }
+
+// a user ordering for string keys (callable with whatever the backend decodes the keys to)
+struct ShortestFirst
+{
+  bool operator()(std::string_view a, std::string_view b) const { return a.size() != b.size() ? a.size() < b.size() : a > b; }
+};
 
 // deferred-format user type, trivially copyable: its formatter must run on the backend thread
 struct TcDeferred
@@ -801,6 +807,35 @@ void VM<FO>::do_log_typed(int tid, int opi, Op const& op)
     double a = dbl();
     VS_MSITE(true, fmtquill::format("dv [sid: {}, a: {}]", sid, a), QUILL_LOGV_DYNAMIC(lg, quill::LogLevel::Info, "dv", sid, a));
     sid.assign(sid.size(), '!');
+    break;
+  }
+  case 55:
+  {
+    // ordered containers with a user-chosen ordering: the backend rebuilds them and must print them in that order
+    std::set<std::string, std::greater<>> st;
+    std::multiset<int, std::greater<int>> ms;
+    for (int k = static_cast<int>(r.range(0, 5)); k > 0; --k)
+    {
+      st.insert(typed_str(r, 8, 0));
+      ms.insert(static_cast<int>(r.range(-5, 5)));
+    }
+    VS_TSITE(true, "{} {}", st, ms);
+    st.clear();
+    ms.clear();
+    break;
+  }
+  case 56:
+  {
+    std::map<std::string, int, std::greater<>> m;
+    std::multiset<std::string, ShortestFirst> ms;
+    for (int k = static_cast<int>(r.range(0, 5)); k > 0; --k)
+    {
+      m[typed_str(r, 8, 0)] = static_cast<int>(i64());
+      ms.insert(typed_str(r, 6, 0));
+    }
+    VS_TSITE(true, "{} {}", m, ms);
+    m.clear();
+    ms.clear();
     break;
   }
   default:
